@@ -459,6 +459,103 @@ func witnessIndexCommitCrash(c *core.Ctx, db string, j int) error {
 	return r.err
 }
 
+// witnessIndexFlushFault: fault placement per flush step of the real metricIndexDatabase.Flush.
+// Round 1: two series (with tags, so that all four steps write) are created and flushed. Round 2: two more,
+// PrepareFlush, Flush with a fault on step `step`; the process dies; a new tag set, the four old ones, another
+// new one. Round 3 (on the recovered node): two more series, PrepareFlush, a faulted Flush, then the retry round
+// (PrepareFlush + Flush) succeeds, crash, and everything is asked for again. lindb returns from Flush at the
+// failed step, so the series dictionary of a round is never committed without that round's postings; a Flush
+// that carries on after a failed postings step commits dictionary entries whose ids the recovered postings —
+// the seed of new series ids — do not contain.
+func witnessIndexFlushFault(c *core.Ctx, db string, step int) error {
+	r, err := newRunner(c, db, 1, 0)
+	if err != nil {
+		return err
+	}
+	defer r.close()
+	r.o.tag = "index-flush-fault-"
+	mid, _ := r.metric(0, 0)
+	m := int(mid)
+	r.mprepare()
+	r.mflush()
+	ask := func(vs ...int) {
+		for _, v := range vs {
+			r.series(0, 0, 0, m, []kv{{0, v}})
+		}
+	}
+	ask(0, 1)
+	r.iprepare(0)
+	r.iflush(0)
+	ask(2, 3)
+	r.iprepare(0)
+	r.iflushfault(0, step)
+	r.crash()
+	ask(4, 0, 1, 2, 3, 5)
+	r.mseries(0, m)
+	if r.err != nil {
+		return r.err
+	}
+	ask(6, 7)
+	r.iprepare(0)
+	r.iflushfault(0, (step+1)%4)
+	ask(8)
+	r.iprepare(0) // the faulted step's table is still frozen: only the flushed ones swap
+	r.iflush(0)
+	r.crash()
+	ask(9, 0, 1, 2, 3, 4, 5, 6, 7, 8, 10)
+	r.mseries(0, m)
+	c.Branch("witness-index-flush-fault")
+	c.NonTrivial()
+	return r.err
+}
+
+// witnessNameLimits: max-namespaces = 1, max-metrics = 2 (the tests are `limit < ids handed out`, so two
+// namespaces and three metric names are admitted). Refused names are asked for again — before and after a
+// metadata flush (the refused createFn left an empty bucket map in the mutable table), after a failed flush,
+// after reopen — they stay refused and are not found; every admitted name keeps its id; with the limits
+// lifted the refused names get fresh ids.
+func witnessNameLimits(c *core.Ctx, db string) error {
+	r, err := newRunner(c, db, 1, 0)
+	if err != nil {
+		return err
+	}
+	defer r.close()
+	r.o.tag = "name-limits-"
+	r.limits(1, 2)
+	all := func() {
+		r.metric(0, 0)
+		r.metric(1, 0)
+		r.metric(2, 0) // third namespace: refused
+		r.metric(0, 1)
+		r.metric(0, 2) // fourth metric name: refused
+		r.metric(1, 3) // refused, in the other namespace's bucket
+	}
+	all()
+	r.mprepare()
+	r.metric(5, 0) // refused between PrepareFlush and Flush: namespace bucket 'c' (nsString(5) = "cns5") is new
+	r.mflush()
+	all()
+	r.mprepare()
+	r.mflushfail()
+	all()
+	r.mprepare()
+	r.mflush()
+	r.reopen()
+	all()
+	r.mflushcrash(3)
+	all()
+	r.limits(0, 0)
+	all()
+	r.metric(5, 0)
+	r.mprepare()
+	r.mflush()
+	r.reopen()
+	all()
+	c.Branch("witness-name-limits")
+	c.NonTrivial()
+	return r.err
+}
+
 // witnessBucketCacheRace: three parties on the metric dictionary's LRU bucket cache.
 //  1. a first metric is frozen by PrepareFlush, metric x is created (no bucket on disk yet: nothing is
 //     cached), the flush persists the first metric: the metric bucket exists on disk, without x; the
